@@ -6,6 +6,41 @@ import os
 VERIF = os.path.dirname(os.path.dirname(os.path.abspath(__file__)))
 
 CHECKS = {
+    "C03": dict(
+        category="model_checking",
+        technique="exhaustive walk of a finite configuration lattice (h, r, declaration order) on the real evaluator and the public fuzz API",
+        text="Every configuration 0..12 x 0..12 (thorough 0..40 x 0..40) of h hard constraints and r computed repetitions in 3 declaration orders is built as a real spec; an independently confirmed satisfying tree must be yielded by the real Evaluator.evaluate_individual on first sight, and for small h + r Fandango.fuzz(initial_population=[witness]) must report a solution.",
+        note="The lattice is finite and walked completely; constraints are tautologies / fixed-count repetitions so the witness is known to satisfy them. Rounding defect repaired in /repo (fix commit, see known_findings.json).",
+        design="4 C03",
+    ),
+    "C07": dict(
+        category="model_checking",
+        technique="bounded-exhaustive enumeration of (tree, constraint program) pairs, real compiled constraint (eager and lazy) vs a reference semantics",
+        text="All independently enumerated derivation trees (<= 12/11 nodes) of two grammars x ~1100 constraint programs (selectors ., .., [i], slices, *, len, |x|; comparisons, Python expressions, operands that raise; and/or; any/all/exists/forall incl. nested rebinding and sibling quantifiers) are compiled by the real front end in eager and lazy mode; constraint.check(tree) must equal the RefConstraint verdict and lazy must equal eager.",
+        note="Trusted: mc/refconstraint.py as the reading of docs/Paths.md. and/or over atoms is accepted under either reading (combination of universally quantified sub-formulas, or one Python expression). Three deviations are recorded known findings, one was repaired.",
+        design="4 C07",
+    ),
+    "C09": dict(
+        category="model_checking",
+        technique="bounded-exhaustive enumeration of tree shapes x all accessor orders on one tree object against a reference fold",
+        text="Every sequence of <= 3 (thorough 4) atoms over text/non-ASCII text/empty text/bytes/bit leaves/4-bit and 8-bit runs x every nesting into <= 3 levels x all 24 orders of str/bytes/to_bits/int on the same tree object; each result is compared with RefValue, must not depend on nesting or accessor order, and the tree and every Terminal value object must be unchanged afterwards.",
+        note="Trusted: RefValue in mc/checks/c09.py written from the property statement. Two deviations are recorded known findings.",
+        design="4 C09",
+    ),
+    "C12": dict(
+        category="model_checking",
+        technique="explicit-state BFS over request histories on one spec object, differential oracle against a freshly built spec",
+        text="Breadth-first search over histories (depth 3 quick / 4 thorough) of parse, parse_forest, abandoned iteration, include_controlflow, prefix mode, another start symbol, API parse, fuzz-internal parses and mutation of handed-out trees, on four specs (ambiguous, generator, computed repetition, regex+constraint); states are de-duplicated on the forest-cache content plus aliasing of held trees; every request's observation must equal the same request on a fresh spec.",
+        note="Canonical state ignores Repetition.iteration counters (observations compared modulo renaming of iteration ids). The truncated-forest-cache defect was repaired in /repo.",
+        design="4 C12",
+    ),
+    "C13": dict(
+        category="model_checking",
+        technique="exhaustive enumeration of all 2^(n-1) fragmentations of every input on the real incremental parser, differential against the one-shot parse plus a reference viable-prefix oracle",
+        text="For every grammar of a fragmentation family (multi-character literals, regexes, alternatives sharing prefixes, repetitions, bytes/bit fields) and every input up to length 5 (thorough 7) every composition into consecutive fragments is fed through new_parse()/consume(); complete trees after the last fragment must equal the one-shot result, and can_continue() may be False only if no extension is in the reference language.",
+        note="Grammars with an empty-deriving body under */+ are excluded (they diverge: C06 finding). Two regex-split deviations are recorded known findings.",
+        design="4 C13",
+    ),
     "C04": dict(
         category="model_checking",
         technique="bounded-exhaustive explicit enumeration: every grammar of a family x every input up to a length bound on the real parser, each verdict compared with a reference matcher",
